@@ -168,8 +168,7 @@ type msgSource struct {
 	p      *point // the object generators' view of the same node
 	chain  []*types.Block
 	certs  map[common.Hash]*types.BlockCert
-	// a request for a fork range is outstanding under this id (its channel holds 100 elements, which the
-	// ranges generated here never exceed: a range that overflows the channel of its batch blocks the reader)
+	// a request for a block range is outstanding at the peer under this id
 	batchId uint32
 	batch   *protocol.VerifC12Batch
 }
@@ -341,7 +340,70 @@ func hostileRange(t *rapid.T, w *sim.World, r *protocol.VerifBlockRange) {
 	for i := 1 + pick(t, "nRangeOps", 2); i > 0 && len(r.Blocks) > 0; i-- {
 		k := pick(t, "rangeItem", len(r.Blocks))
 		h, c, d := protocol.VerifC12RangeItem(r.Blocks[k])
-		switch pick(t, "rangeOp", 8) {
+		switch pick(t, "rangeOp", 14) {
+		case 8:
+			// a diff with many entries
+			d = &state.IdentityStateDiff{}
+			for j := rapid.SampledFrom([]int{2, 100, 5000}).Draw(t, "diffLen"); j > 0; j-- {
+				var a common.Address
+				a[0], a[1], a[19] = byte(j), byte(j>>8), 0x5a
+				d.Values = append(d.Values, &state.IdentityStateDiffValue{Address: a, Deleted: j%3 == 0, Value: []byte{8, byte(j % 8)}})
+			}
+		case 9:
+			// entries of the honest diff repeated / with a second, different value for the same address
+			if d != nil && len(d.Values) > 0 {
+				dd := &state.IdentityStateDiff{Values: append([]*state.IdentityStateDiffValue{}, d.Values...)}
+				x := *d.Values[pick(t, "dupDiffEntry", len(d.Values))]
+				if rapid.Bool().Draw(t, "otherValue") {
+					x.Value = []byte{8, byte(pick(t, "flagsVal", 8))}
+				}
+				if rapid.Bool().Draw(t, "dupFirst") {
+					dd.Values = append([]*state.IdentityStateDiffValue{&x}, dd.Values...)
+				} else {
+					dd.Values = append(dd.Values, &x)
+				}
+				d = dd
+			}
+		case 10:
+			// a no-op deletion of an address that has no entry
+			dd := &state.IdentityStateDiff{}
+			if d != nil {
+				dd.Values = append(dd.Values, d.Values...)
+			}
+			dd.Values = append(dd.Values, &state.IdentityStateDiffValue{Address: common.Address{0xab, 0xcd}, Deleted: true, Value: rapid.SampledFrom([][]byte{nil, {1}}).Draw(t, "deletedValue")})
+			d = dd
+		case 11:
+			// hostile header edit (the object target's operators)
+			if h != nil && h.ProposedHeader != nil {
+				hb := mustBytes(h.ToBytes())
+				nh := new(types.Header)
+				_ = nh.FromBytes(hb)
+				blk := &types.Block{Header: nh, Body: &types.Body{}}
+				prev := &types.Header{EmptyBlockHeader: &types.EmptyBlockHeader{Height: nh.Height() - 1}}
+				headerOps[pick(t, "rangeHeaderOp", len(headerOps))](t, w, prev, blk)
+				h = blk.Header
+			}
+		case 12:
+			// drop the element (gap) or move it to the end (disorder)
+			rest := append(append([]*protocol.VerifRangeBlock{}, r.Blocks[:k]...), r.Blocks[k+1:]...)
+			if rapid.Bool().Draw(t, "moveToEnd") {
+				rest = append(rest, r.Blocks[k])
+			}
+			r.Blocks = rest
+			continue
+		case 13:
+			if c != nil {
+				cc := *c
+				switch pick(t, "certField", 3) {
+				case 0:
+					cc.Step = uint8(rapid.SampledFrom([]int{0, 1, types.ReductionOne, types.ReductionTwo}).Draw(t, "rangeCertStep"))
+				case 1:
+					cc.Round++
+				default:
+					cc.VotedHash[0] ^= 1
+				}
+				c = &cc
+			}
 		case 0:
 			h = nil
 		case 1:
@@ -563,10 +625,19 @@ func TestFrames(t *testing.T) {
 		for i := 0; i < n; i++ {
 			evid.Eval()
 			if m.batch == nil {
-				// the node asks this peer for its fork, as the fork resolver does
-				b, err := g.h.GetForkBlockRange(pr.VerifC12PeerID(), vr.Chain.GetTopBlockHashes(100))
+				// the node has a request outstanding at this peer: for its fork (as the fork resolver does, 100 elements
+				// at most) or for the next 1-3 blocks (as the downloader / block seeker do); generated answers may be longer
+				// than the request
+				var b *protocol.VerifC12Batch
+				var err error
+				if pick(t, "shortRequest", 3) == 2 {
+					from := vr.Head().Height() + 1
+					b, err = g.h.GetBlocksRange(pr.VerifC12PeerID(), from, from+uint64(pick(t, "requestLen", 3)))
+				} else {
+					b, err = g.h.GetForkBlockRange(pr.VerifC12PeerID(), vr.Chain.GetTopBlockHashes(100))
+				}
 				if err != nil {
-					t.Fatalf("GetForkBlockRange: %v", err)
+					t.Fatalf("request a block range: %v", err)
 				}
 				m.batch, m.batchId = b, protocol.VerifC12LastBatchId()
 			}
